@@ -3,13 +3,13 @@ pub fn simplest_from_float<R: ErrorBounds, const B: Word>(f: &FBig<R, B>) -> Opt
 /*@ #[ref_operand(f)]
     requires
         B >= 2,
-        sf_domain(*f),
+        sf_domain(*f),      // infinite, zero, or limited precision in an EVEN base (odd bases: known finding), see lib/sf_lemmas.rs
     ensures
         // infinities have no rational value
         (f.repr.significand.v() == 0 && f.repr.exponent != 0) ==> ret is None,
         // zero
         (f.repr.significand.v() == 0 && f.repr.exponent == 0) ==> (ret matches Some(r) && r.0.numerator.v() == 0 && r.0.denominator.v() == 1),
-        // otherwise: a canonical fraction that rounds to f, and no fraction that rounds to f is simpler
+        // otherwise: a canonical fraction that rounds to f under R, and NO fraction that rounds to f is simpler
         f.repr.significand.v() != 0 ==> (ret matches Some(r) && sf_post(R::md(), B as int, f.repr.significand.v(), f.repr.exponent as int,
             f.context.precision as int, r.0.numerator.v(), r.0.denominator.v())),
 @*/
@@ -23,6 +23,8 @@ pub fn simplest_from_float<R: ErrorBounds, const B: Word>(f: &FBig<R, B>) -> Opt
 
         // calculate lower and upper bound
         let (l, r, incl_l, incl_r) = R::error_bounds(f);
+        /*@ let ghost (b, sig, exp, p) = (B as int, f.repr.significand.v(), f.repr.exponent as int, f.context.precision as int);
+            let ghost k = lemma_sf_pre(R::md(), *f, l, r, incl_l, incl_r); @*/
         let lb = f - l.with_precision(f.precision() + 1).unwrap();
         let rb = f + r.with_precision(f.precision() + 1).unwrap();
 
@@ -30,11 +32,18 @@ pub fn simplest_from_float<R: ErrorBounds, const B: Word>(f: &FBig<R, B>) -> Opt
         let left = Self::try_from(lb).unwrap();
         let right = Self::try_from(rb).unwrap();
         let mut simplest = Self::simplest_in(left.clone(), right.clone());
+        /*@ let ghost s0 = simplest; @*/
         if incl_l && left.is_simpler_than(&simplest) {
             simplest = left;
         }
         if incl_r && right.is_simpler_than(&simplest) {
             simplest = right;
         }
+        /*@ proof {
+            lemma_sf_final(R::md(), b, sig, exp, p, k.0, k.1, incl_l, incl_r,
+                lb.repr.significand.v(), lb.repr.exponent as int, rb.repr.significand.v(), rb.repr.exponent as int,
+                left.0.numerator.v(), left.0.denominator.v(), right.0.numerator.v(), right.0.denominator.v(),
+                s0.0.numerator.v(), s0.0.denominator.v());
+        } @*/
         Some(simplest)
     }
